@@ -450,6 +450,11 @@ def resize_array(arr, newshp, offset=None, pad_mode='constant', pad_const=0,
         offset = normalized_scalar_param_list(
             offset, out.ndim, param_conv=safe_int_conv, keep_none=False)
 
+    for i, (n_orig, n_new, off) in enumerate(zip(arr.shape, out.shape, offset)):
+        if n_orig != n_new and not 0 <= off <= abs(n_new - n_orig):
+            raise ValueError('in axis {}: `offset` {} outside the valid range '
+                             '0 ... {}'.format(i, off, abs(n_new - n_orig)))
+
     # Handle padding
     pad_mode, pad_mode_in = str(pad_mode).lower(), pad_mode
     if pad_mode not in _SUPPORTED_RESIZE_PAD_MODES:
